@@ -31,6 +31,10 @@ type c08Handle struct {
 	cache  int
 	opened int   // version at open
 	size   int64 // file size at open
+	// the last rowid lookup of the previous read: repeated first thing in the next one,
+	// so that the same lookup is made twice with nothing but a foreign commit in between
+	lastTable string
+	lastRowid int64
 }
 
 type histIn struct {
@@ -90,6 +94,48 @@ func c08Read(c *sim.Ctx, w *world.World, st *c08State, hi int, h *c08Handle, rep
 		}
 		return
 	}
+	if h.lastTable != "" {
+		if t := w.Snap.Table(h.lastTable); t != nil && !t.WithoutRowid && t.HasRows {
+			cols := t.ColNames()
+			rr := ops.Run(h.d, ops.Op{Kind: "rowid", Table: t.Name, Rowid: h.lastRowid, Cols: cols}, nil)
+			c.Eval(1)
+			if rr.Panic == nil && rr.Err == nil {
+				k := -1
+				for i, r := range t.Rowids {
+					if r == h.lastRowid {
+						k = i
+					}
+				}
+				c.Probe("rowid-lookup-repeated-across-commit")
+				switch {
+				case k < 0 && !rr.NilRow:
+					c.Fail("stale-read", "stale-rowid-lookup:phantom:"+cfg, fmt.Sprintf("handle %s (opened at v%d) SelectRowid(%s, %d) at v%d - the lookup it made last at the previous version - returned a row, SQLite has none", h.name, h.opened, t.Name, h.lastRowid, w.Version), nil)
+				case k >= 0 && (rr.NilRow || len(rr.Rows) != 1):
+					c.Fail("stale-read", "stale-rowid-lookup:"+cfg, fmt.Sprintf("handle %s (opened at v%d) SelectRowid(%s, %d) at v%d found no row, SQLite has it", h.name, h.opened, t.Name, h.lastRowid, w.Version), nil)
+				case k >= 0:
+					wantRow := [][]sq.Val{projectRow(t, k, cols)}
+					if eq, _ := rowsEqModDefaults(c, t, cols, wantRow, rr.Rows); !eq {
+						c.Fail("stale-read", "stale-rowid-lookup:"+cfg, fmt.Sprintf("handle %s (opened at v%d) repeated SelectRowid(%s, %d) at v%d = %s, SQLite: %s", h.name, h.opened, t.Name, h.lastRowid, w.Version, fmtRows(rr.Rows, 0), fmtRows(wantRow, 0)), nil)
+					}
+				}
+			}
+		}
+		h.lastTable = ""
+	}
+	defer func() {
+		// the last thing this read does: one more lookup, remembered for the next read
+		for _, t := range w.Snap.Tables {
+			if !t.WithoutRowid && t.HasRows && len(t.Rowids) > 0 {
+				if acc, _ := accepted(h.d, t.Name); !acc {
+					continue
+				}
+				rid := t.Rowids[s.Draw(len(t.Rowids), "lastlookup")]
+				ops.Run(h.d, ops.Op{Kind: "rowid", Table: t.Name, Rowid: rid, Cols: t.ColNames()}, nil)
+				h.lastTable, h.lastRowid = t.Name, rid
+				return
+			}
+		}
+	}()
 	// the definitions this handle reports must be the ones a handle opened right now
 	// reports (tables, columns, primary key and every index with its columns): whatever
 	// sqlittle makes of a definition, it may not depend on what the handle saw earlier
